@@ -290,6 +290,22 @@ theorem uniform_linspace0 (H : ℝ) (n : ℕ) (hn : 2 ≤ n) :
   rw [key (i + 1) hi, key i (by omega)]
   push_cast; ring
 
+/-- the nodes of `linspace(0, H, n)` over ℝ -/
+theorem nth_linspace0 (H : ℝ) (n : ℕ) (hn : 2 ≤ n) (i : ℕ) (hi : i < n) :
+    nth (linspace0 H n) i = (i : ℝ) * (H / ((n - 1 : ℕ) : ℝ)) := by
+  have hne : ((n - 1 : ℕ) : ℝ) ≠ 0 := by
+    have : 0 < n - 1 := by omega
+    exact_mod_cast (Nat.pos_iff_ne_zero.mp this)
+  unfold nth linspace0
+  rw [List.getD_eq_getElem?_getD, List.getElem?_map, List.getElem?_range hi]
+  simp only [Option.map_some, Option.getD_some, ofNat'_real]
+  by_cases hl : i + 1 = n
+  · have : i = n - 1 := by omega
+    simp only [hl, beq_self_eq_true, if_true]
+    rw [this]; field_simp
+  · have : (i + 1 == n) = false := by simpa using hl
+    simp only [this, Bool.false_eq_true, if_false]
+
 theorem length_linspace0 {α : Type} [Num α] (H : α) (n : ℕ) : (linspace0 H n).length = n := by
   simp [linspace0]
 
